@@ -12,7 +12,7 @@ __all__ = []
 
 
 def convert_curve(incrv, outtype):
-    outcrv = outtype.Curve()
+    outcrv = outtype.Curve(normalize_kv=incrv._kv_normalize)  # keep the parametric domain of the input
     outcrv.degree = incrv.degree
     outcrv.ctrlpts = incrv.ctrlpts
     outcrv.knotvector = incrv.knotvector
@@ -20,7 +20,7 @@ def convert_curve(incrv, outtype):
 
 
 def convert_surface(insrf, outtype):
-    outsrf = outtype.Surface()
+    outsrf = outtype.Surface(normalize_kv=insrf._kv_normalize)  # keep the parametric domain of the input
     outsrf.degree_u = insrf.degree_u
     outsrf.degree_v = insrf.degree_v
     outsrf.ctrlpts_size_u = insrf.ctrlpts_size_u
@@ -32,7 +32,7 @@ def convert_surface(insrf, outtype):
 
 
 def convert_volume(invol, outtype):
-    outvol = outtype.Volume()
+    outvol = outtype.Volume(normalize_kv=invol._kv_normalize)  # keep the parametric domain of the input
     outvol.degree_u = invol.degree_u
     outvol.degree_v = invol.degree_v
     outvol.degree_w = invol.degree_w
